@@ -58,7 +58,7 @@ theorem step_measure (cfg : Cfg) (s t : St) (h : Step cfg false s t) : measure t
   | startCR _ i hi =>
     have l1 := le_tot wt _ _ _ hi
     (try simp only [St.setDone, St.setBg]) <;> (repeat' split) <;> simp_all [tot_set_eq _ _ _ _ _ hi, bgWt_run, bgWt_idle, bgWt_exited, ehWt_noerr, ehWt_haserr, ehWt_hasperr, ehWt_exited, wt, ackWt, bphWt, St.bg, onOk, onErr, selNext, afterSetErr] <;> (try omega)
-  | startSR _ i hi =>
+  | startSR _ i hi ha =>
     have l1 := le_tot wt _ _ _ hi
     (try simp only [St.setDone, St.setBg]) <;> (repeat' split) <;> simp_all [tot_set_eq _ _ _ _ _ hi, bgWt_run, bgWt_idle, bgWt_exited, ehWt_noerr, ehWt_haserr, ehWt_hasperr, ehWt_exited, wt, ackWt, bphWt, St.bg, onOk, onErr, selNext, afterSetErr] <;> (try omega)
   | startClose _ i hi =>
